@@ -208,6 +208,48 @@ def run(ck):
                                 expected='four equal points on member segments', observed=[str(p) for p in pts], driver='path')
                     break
 
+        # a bare segment as the other operand (Path.intersect accepts one): the same coherence, the segment standing for a one-member path
+        for A, B in ((p1, p2), (p2, p1)):
+            for seg in B:
+                ck.case(fp=('path-x-segment', name, repr(seg)), nontrivial=True)
+                try:
+                    res = A.intersect(seg)
+                except Exception as e:      # noqa
+                    ck.disagree(key='Path.intersect/segment-operand-raises-' + type(e).__name__, site='svgpathtools/path.py:Path.intersect', what='%s: path x bare %r raised %r' % (name, seg, e),
+                                case={'family': name}, expected='list', observed=repr(e), driver='path')
+                    continue
+                for ((T1, s1, t1), (T2, s2, t2)) in res:
+                    pts = [A.point(T1), s1.point(t1), s2.point(t2), seg.point(T2), seg.point(t2)]
+                    okm = any(s1 is s_ for s_ in A) and (s2 is seg or s2 == seg)
+                    if not okm or not (max(abs(p_ - pts[0]) for p_ in pts) <= 1e-5 * 12) or not (0 <= T1 <= 1 and 0 <= T2 <= 1 and 0 <= t1 <= 1 and 0 <= t2 <= 1):
+                        ck.disagree(key='Path.intersect/incoherent-with-a-segment-operand', site='svgpathtools/path.py:Path.intersect',
+                                    what='%s: path x bare %r: ((%r, seg, %r), (%r, seg, %r)) gives points %s (members: %s)' % (name, seg, T1, t1, T2, t2, pts, okm), case={'family': name},
+                                    expected='equal points on member segments', observed=[str(p_) for p_ in pts], driver='path')
+                        break
+    thin_and_tiny(ck)
+
+
+def thin_and_tiny(ck):
+    """(a) a nearly straight, nearly axis-parallel Bezier (thin, long boxes) against a curve: the reported points coincide to 1e-5 of the size;
+    (b) Line x nearly straight Bezier drawn in units of 1e-5 .. 1e-7: the small top coefficient of the polynomial is part of the curve"""
+    for flat in (1e-2, 1e-4, 1e-6, 1e-8, 0.0):
+        strokes = [sp.CubicBezier(0j, 3 + flat * 1j, 7 + flat * 2j, 10 + flat * 3j), sp.QuadraticBezier(0j, 5 + flat * 5j, 10 + 0j), sp.CubicBezier(complex(flat, 0), complex(2 * flat, 3), complex(0, 7), complex(flat, 10)).translated(4 - 5j)]
+        others = [sp.CubicBezier(1 - 4j, 4 + 6j, 6 - 6j, 9 + 4j), sp.QuadraticBezier(2 - 3j, 5 + 9j, 8 - 3j)]
+        for st in strokes:
+            if flat == 0.0 and not isinstance(st, sp.QuadraticBezier):
+                continue            # (exactly axis-parallel straight Beziers: the recorded finding of C12)
+            for ot in others:
+                ck.case(fp=('thin', flat, repr(st), repr(ot)), nontrivial=True)
+                pair_case(ck, 'thin stroke (flatness %g)' % flat, st, ot, None, 1e-5, {'flat': flat, 'stroke': repr(st), 'other': repr(ot)})
+    for unit in (1e-3, 1e-5, 1e-6, 1e-7):
+        for sag in (0.1, 0.005, 0.0005):
+            hump = sp.QuadraticBezier(0j, complex(5, 2 * sag * 10) * unit, complex(10, 0) * unit)
+            hump3 = sp.CubicBezier(0j, complex(3, sag * 13) * unit, complex(7, sag * 13) * unit, complex(10, 0) * unit)
+            for ln in (sp.Line(complex(2, -1) * unit, complex(3, 1) * unit), sp.Line(complex(8, 2) * unit, complex(6.5, -2) * unit), sp.Line(complex(-1, sag * 5) * unit, complex(11, sag * 5) * unit)):
+                for cv in (hump, hump3):
+                    ck.case(fp=('tiny-hump', unit, sag, repr(ln), type(cv).__name__), nontrivial=True)
+                    pair_case(ck, 'line x shallow hump in units of %g (sagitta %g)' % (unit, sag), cv, ln, None, 1e-5, {'unit': unit, 'sag': sag})
+
 
 def replay(rec):
     print(rec['what'])
